@@ -392,26 +392,42 @@ func checkEventTables(c *report.Ctx) {
 		s, _ := an.ConstString(k.Value)
 		c.Check("R-CONST", "L/core."+name, "event name constant", s == want, k.Pos(), 1, "%s = %q", name, s)
 	}
-	// subscribeUnsafe validates before storing
+	// a subscription is recorded only after validation (the helper subscribeUnsafe is looked through: internal/load/norm.go)
 	for _, owner := range []string{"ExternalAgent", "InternalAgent"} {
-		f := fn(c, coreP, "(*"+owner+").subscribeUnsafe")
-		if f == nil {
-			continue
-		}
-		facts := an.NewFacts(f)
 		n := 0
 		ok := true
-		an.AllInstrs(f, func(in ssa.Instruction) {
-			if mu, isMU := in.(*ssa.MapUpdate); isMU {
+		var where []string
+		var pos token.Pos
+		for _, f := range repoFuncs(c) {
+			if strings.HasPrefix(an.FuncName(f), "L/testdata.") || strings.HasPrefix(an.FuncName(f), "L/core.New") {
+				continue
+			}
+			var facts *an.Facts
+			an.AllInstrs(f, func(in ssa.Instruction) {
+				mu, isMU := in.(*ssa.MapUpdate)
+				if !isMU {
+					return
+				}
+				fr, k := an.AsField(mu.Map)
+				if !k || fr.Struct != coreP+"."+owner || fr.Field != "events" {
+					return
+				}
+				if facts == nil {
+					facts = an.NewFacts(f)
+				}
 				n++
+				where = append(where, an.FuncName(f))
+				if pos == token.NoPos {
+					pos = an.InstrPos(in)
+				}
 				if !facts.Holds(mu.Block(), func(ft an.Fact) bool {
 					return an.CmpNil(ft, true, func(v ssa.Value) bool { return an.IsResultOf(v, "L/core.Validate"+owner+"Event", -1) })
 				}) {
 					ok = false
 				}
-			}
-		})
-		c.Check("R-GUARD", an.FuncName(f)+"/validated", "a subscription is recorded only for an event the validator accepted", ok && n == 1, fpos(f), n, "%d stores, guarded: %v", n, ok)
+			})
+		}
+		c.Check("R-GUARD", "L/core."+owner+".events/validated", "a subscription is recorded only for an event the validator accepted", ok && n >= 1, pos, n, "%d stores in %v, all guarded by the validator's nil result: %v", n, uniq(where), ok)
 	}
 }
 
